@@ -251,7 +251,14 @@ def _csv_rows(tree):
     data = tree.get(CSV)
     if not data:
         return 0
-    return max(0, data.count(b"\n") - 1)
+    # terminated records, not lines: a quoted field may itself contain line breaks
+    n, quoted = 0, False
+    for ch in data:
+        if ch == 0x22:
+            quoted = not quoted
+        elif ch == 0x0A and not quoted:
+            n += 1
+    return max(0, n - 1)
 
 
 # --------------------------------------------------------------------------
